@@ -250,3 +250,8 @@ pub fn replay(case: &Value) -> Result<String, String> {
 pub fn crash_sig(_case: &Value, kind: &str) -> String {
     kind.to_string()
 }
+
+pub const RULE: &str = "enumeration (no duplicates within a phase): planted malformed line (6 kinds x 4-5 spellings) at every position among every choice of well-formed lines (pool of 10), LF and CRLF; pairs of malformed lines; every sequence of tokens from a pool of 14; every text up to the length bound over {a SP \" \\ # = : ! $ { LF CR} (+TAB, e-acute). Oracle: no panic; Ok => one instruction per line with line numbers 1..n, no source tag, blank/comment lines Empty, each line parses alone to the same instruction; Err(kind,k) => 1<=k<=n and line k alone is rejected with the same kind; planted error => that kind and line. Non-trivial: the text contains one of \" \\ # = : !; states = distinct (verdict, error kind, error line, line count) classes, transitions = parse_text calls on whole texts";
+pub const ASSUMPTIONS: &[&str] = &["no !include_files directive in the texts (C14 covers includes)"];
+pub const EXHAUSTIVE: bool = true;
+pub const WALL_CAP_S: (u64, u64) = (50, 1500);
